@@ -49,11 +49,6 @@ FILE *fopen(const char *path, const char *mode)
 	return g_open_ret;
 }
 
-#ifdef EXP_NOSNP
-static inline int exp_snp(char *s, size_t n) { int r = nondet_int(); __CPROVER_assume(r >= 0); g_snp_ret = r; g_snp_n++; if (n > 0 && (size_t) r >= n) g_lowfail++; if (n > 0 && s != NULL) { s[0] = nondet_char(); s[n - 1] = nondet_char(); } return r; }
-#undef snprintf
-#define snprintf(s, n, ...) exp_snp((s), (n))
-#endif
 #include "pv/prf.c"        /* the real /repo/src/emu/pv/prf.c */
 
 #define ROWSZ sizeof(struct prf_row)
@@ -66,7 +61,12 @@ static inline int exp_snp(char *s, size_t n) { int r = nondet_int(); __CPROVER_a
 #else
 #define ROWS_BYTES(n) ((size_t) (n) * ROWSZ)
 #endif
-#define PRF_OBJ(prf) (__CPROVER_is_fresh(prf, sizeof(struct prf)) && (prf)->nrows >= 0 && (prf)->nrows <= MAXROWS && \
+#ifdef EXACTROWS
+#define NROWS_OK(prf) ((prf)->nrows == MAXROWS)
+#else
+#define NROWS_OK(prf) ((prf)->nrows >= 0 && (prf)->nrows <= MAXROWS)
+#endif
+#define PRF_OBJ(prf) (__CPROVER_is_fresh(prf, sizeof(struct prf)) && NROWS_OK(prf) && \
 	__CPROVER_is_fresh((prf)->rows, ROWS_BYTES((prf)->nrows)))
 #define INR(prf, x) ((x) >= 0 && (x) < (prf)->nrows)
 /* g_k observes one arbitrary row (any row when the table is not empty) */
@@ -86,12 +86,8 @@ __CPROVER_assigns(DIAG_FRAME, g_lowfail, g_snp_ret, g_snp_n)
 /* frame = "no overwrite": the only row that may change is the target, and only while it has no
  * name yet; rows outside [0,nrows), other rows and already named rows are not assignable at all
  * (observing one byte of another row instead is intractable: stride 516 is not a power of two) */
-#ifdef EXP_WHOLE
-__CPROVER_assigns(INR(prf, index) && prf->rows[index].set == 0: prf->rows[index])
-#else
 __CPROVER_assigns(INR(prf, index) && prf->rows[index].set == 0: prf->rows[index].set,
 	__CPROVER_object_upto(prf->rows[index].label, MAX_PRF_LABEL))
-#endif
 /* accepted exactly when the row exists, is not named yet and the label fits */
 __CPROVER_ensures((RV == 0) == (INR(prf, index) && g_pre_set == 0 && g_lowfail == OLD(g_lowfail)))
 __CPROVER_ensures(RV == 0 || (RV == -1 && g_err > OLD(g_err)))
@@ -179,8 +175,10 @@ __CPROVER_assigns(*prf, DIAG_FRAME, g_lowfail, g_open_n, g_open_ret, g_open_mode
 __CPROVER_ensures((RV == 0) == (g_lowfail == OLD(g_lowfail)))
 __CPROVER_ensures(RV == 0 || (RV == -1 && g_err > OLD(g_err)))
 __CPROVER_ensures(g_open_n == OLD(g_open_n) + 1 && g_open_mode == 'w')
-__CPROVER_ensures(RV != 0 || (prf->nrows == nrows && prf->f == g_open_ret && g_open_ret != NULL &&
-	__CPROVER_is_fresh(prf->rows, (size_t) nrows * ROWSZ) && (nrows == 0 || prf->rows[g_k].set == 0)))
+__CPROVER_ensures(RV != 0 || (prf->nrows == nrows && prf->f == g_open_ret && g_open_ret != NULL))
+/* a fresh table of exactly nrows rows, none of them named (observed at the arbitrary row g_k) */
+__CPROVER_ensures(RV != 0 || __CPROVER_is_fresh(prf->rows, (size_t) nrows * ROWSZ))
+__CPROVER_ensures(RV != 0 || nrows == 0 || prf->rows[g_k].set == 0)
 ;
 void h_prf_open(void)
 {
